@@ -514,6 +514,19 @@ def _selects(q):
     return []
 
 
+def _all_selects(q):
+    """every SELECT at any depth below q"""
+    out = []
+    for s in _selects(q):
+        out.append(s)
+        for sq in s.subqueries():
+            out += _all_selects(sq)
+        for rel in s.rels():
+            if rel.kind == "derived":
+                out += _all_selects(rel.query)
+    return out
+
+
 def _rel_outputs(rel, env, ds, notes):
     if rel.kind == "derived":
         return rel.query.outputs(env, ds, notes)
@@ -844,8 +857,17 @@ def expected(stmt, ds=None):
     reads, writes = stmt.reads(ds), stmt.writes(ds)
     tgt, pairs = stmt.column_pairs(ds, notes)
     col_pairs = sorted({(desc(o), f"{tgt}.{n}") for o, n in pairs}) if tgt else []
+    # KF-05 scope: tables read by the later branches of a set operation whose first branch holds a literal item
+    kf05 = set()
+    for q in walk(stmt):
+        if isinstance(q, SetOp) and q.branches and isinstance(q.branches[0], Select) and \
+                any((not it.is_star) and it.expr.kind == "lit" for it in q.branches[0].items):
+            for b in q.branches[1:]:
+                kf05 |= b.reads(ds)
+                if '"cte"' in repr([rel.kind for s in _all_selects(b) for rel in s.rels()]).replace("'", '"'):
+                    kf05 |= set(reads)  # a later branch goes through CTE references: their origins can be any table of the statement
     return {"read": sorted(reads), "write": sorted(writes), "column_pairs": [list(p) for p in col_pairs],
-            "pairs_raw": sorted((o, n) for o, n in pairs), "notes": sorted(notes), "tags": sorted(stmt.tags())}
+            "pairs_raw": sorted((o, n) for o, n in pairs), "notes": sorted(notes), "tags": sorted(stmt.tags()), "kf05_tables": sorted(kf05)}
 
 
 # --------------------------------------------------------------------------- generators
